@@ -44,6 +44,15 @@ class Crash(Exception):
 CATCH = (UserError, OSError, RuntimeError, TypeError)
 
 
+class MyTypeError(TypeError):
+    pass
+
+
+# modes in which the user function raises (before writing) an exception of a
+# class the library itself also raises / handles
+USER_EXC_MODES = {'rT': TypeError, 'rS': MyTypeError, 'rO': FileNotFoundError, 'rR': RuntimeError}
+
+
 def canon(v):
     return json.dumps(v, sort_keys=True, separators=(',', ':'))
 
@@ -101,7 +110,8 @@ class Interp:
         self.invocations = []      # [fname, rel path | None, args, kwargs]
         self.paths = paths or U
         self.crash_obj = None
-        self.user_exc = None       # the last UserError object raised
+        self.user_exc = None       # the last exception object raised by user code
+        self.pending = None
         self.stack = []            # ids of the call statements in progress
         self.fail_setup = {}       # call id -> exception class (Ref side of C14)
         self.identity_errors = []  # UserErrors that came back as another object
@@ -128,8 +138,9 @@ class Interp:
             self.crash_obj = Crash('crash@%d' % self.npoints)
             raise self.crash_obj
 
-    def raise_user(self, tag):
-        self.user_exc = UserError(tag)
+    def raise_user(self, tag, cls=None):
+        self.user_exc = (cls or UserError)(tag)
+        self.pending = self.user_exc     # raised by user code, not yet caught by user code
         raise self.user_exc
 
     # -- entry ----------------------------------------------------------------
@@ -167,10 +178,12 @@ class Interp:
                     r = api.subbuild(fn, body, args, kwargs)
                 obs.append(['ok', r])
             except CATCH as e:
-                if isinstance(e, UserError) and e is not self.user_exc:
+                if self.pending is not None and e is not self.pending:
                     self.identity_errors.append(sid)
+                    self.pending = e
                 if not s.get('catch'):
                     raise
+                self.pending = None
                 name = type(e).__name__
                 if isinstance(e, OSError) and sid is not None and (
                         sid in self.fail_setup or (self.fault_sid and self.fault_sid() == sid)):
@@ -216,6 +229,8 @@ class Interp:
             obs.append(['q', 'read', 'i', api.query('read', 'i', 'METADATA')])
         if mode == 'rb':
             self.raise_user('rb')
+        if mode in USER_EXC_MODES:
+            self.raise_user(mode, USER_EXC_MODES[mode])
         if writes and not n.get('wfirst'):
             api.write(content_of(obs))
         self.point()
